@@ -1034,6 +1034,9 @@ impl PycParser {
 
     pub fn py_content_size(&self) -> u32 {
         let offset = if self.version < (3, 7) { 8 } else { 12 };
+        if offset + 4 > self.header_length {
+            return 0;  // the 8-byte header of Python < 3.3 has no size field
+        }
         self._read_long_at(offset)
     }
 
